@@ -78,6 +78,33 @@ def install_common(eng):
     reg('math/bits.RotateLeft32', rotl(32))
     reg('math/bits.RotateLeft64', rotl(64))
 
+    # further math/bits helpers a changed tree may reach for: exact on concrete values, byte reversal also on terms;
+    # data-dependent results in taint mode are secrets; anything else is refused (inconclusive, never guessed)
+    def bits_fn(name, w, f, symf=None):
+        def g(e, a, ins):
+            x = force(a[0])
+            if isinstance(x, int):
+                return f(x & ((1 << w) - 1))
+            if getattr(e, 'taint', False):
+                return z3.BitVec('secret64', 64) if name.startswith(('Len', 'LeadingZeros', 'TrailingZeros', 'OnesCount')) else z3.BitVec('secret%d' % w, w)
+            if symf is not None:
+                return simp(symf(tobv(x, w)))
+            raise Unsupported('math/bits.%s%s on a symbolic value' % (name, '' if w == 64 and name in ('Len', 'LeadingZeros') else w))
+        return g
+    for w in (8, 16, 32, 64):
+        reg('math/bits.Len%d' % w, bits_fn('Len', w, lambda x: x.bit_length()))
+        reg('math/bits.LeadingZeros%d' % w, bits_fn('LeadingZeros', w, lambda x, w=w: w - x.bit_length()))
+        reg('math/bits.TrailingZeros%d' % w, bits_fn('TrailingZeros', w, lambda x, w=w: (x & -x).bit_length() - 1 if x else w))
+        reg('math/bits.OnesCount%d' % w, bits_fn('OnesCount', w, lambda x: bin(x).count('1')))
+        if w > 8:
+            reg('math/bits.ReverseBytes%d' % w, bits_fn('ReverseBytes', w, lambda x, w=w: int.from_bytes(x.to_bytes(w // 8, 'big'), 'little'),
+                                                        lambda t, w=w: z3.Concat(*[z3.Extract(8 * i + 7, 8 * i, t) for i in range(w // 8)])))
+    reg('math/bits.Len', bits_fn('Len', 64, lambda x: x.bit_length()))
+    reg('math/bits.LeadingZeros', bits_fn('LeadingZeros', 64, lambda x: 64 - x.bit_length()))
+    reg('math/bits.TrailingZeros', bits_fn('TrailingZeros', 64, lambda x: (x & -x).bit_length() - 1 if x else 64))
+    reg('math/bits.OnesCount', bits_fn('OnesCount', 64, lambda x: bin(x).count('1')))
+    reg('math/bits.Reverse8', bits_fn('Reverse', 8, lambda x: int('{:08b}'.format(x)[::-1], 2), lambda t: z3.Concat(*[z3.Extract(i, i, t) for i in range(8)])))
+
     # ---- errors / fmt
     def errors_new(e, a, ins):
         return Iface('*errors.errorString', Opaque('error', msg=a[0] if isinstance(a[0], str) else '<sym>'))
